@@ -490,6 +490,9 @@ WITNESSES = [
     ("tree: conditional imputation", [("ixai/imputer/tree_imputer.py", "                sampled_values[feature_name] = sampled_value\n", "                if sampled_value is not None:\n                    sampled_values[feature_name] = sampled_value\n")]),
 ]
 SILENT = [
+    ("marginal: strategy looked up in a read-only class-level table", [
+        (_M, "class MarginalImputer(BaseImputer):\n", "class MarginalImputer(BaseImputer):\n    _STRATEGIES = {'joint': True, 'product': False}\n"),
+        (_M, "        if self.sampling_strategy == 'joint':", "        if self._STRATEGIES.get(self.sampling_strategy, False):")]),
     ("marginal: union operator", [(_M, "{**x_i, **sampled_values}", "x_i | sampled_values")]),
     ("marginal: copy then update", [(_M, "prediction = self.model_function({**x_i, **sampled_values})", "x_new = x_i.copy()\n            x_new.update(sampled_values)\n            prediction = self.model_function(x_new)")]),
     ("marginal: list comprehension of predictions", [(_M, "        predictions = []\n        for _ in range(n_samples):\n            sampled_values = self._sample(self.storage_object, feature_subset)\n            prediction = self.model_function({**x_i, **sampled_values})\n            predictions.append(prediction)\n        return predictions\n",
